@@ -69,7 +69,8 @@ class FilesystemIsolation(ContextDecorator):
     @staticmethod
     def _abspath(path: os.PathLike | str) -> str:
         """Convert a path to an absolute path."""
-        return _normalize_path_cached(str(path))
+        # Relative paths depend on the current working directory: anchor them before caching.
+        return _normalize_path_cached(os.path.join(os.getcwd(), str(path)))
 
     def _record_created(self, *paths: os.PathLike | str | None) -> None:
         """Record newly created paths. Uses set.update for fewer allocations."""
